@@ -409,6 +409,13 @@ class Program(object):
             return -self.const(module, expr.operand, _depth + 1)
         if isinstance(expr, ast.Call) and dump(expr) == "type(None)":
             return "type:NoneType"
+        if isinstance(expr, ast.Call) and isinstance(expr.func, ast.Name) and expr.func.id in ("frozenset", "set", "tuple") and \
+                len(expr.args) == 1 and not expr.keywords and isinstance(expr.args[0], (ast.Tuple, ast.List, ast.Set)) and \
+                self.resolve(module, expr.func) == "builtin:" + expr.func.id:
+            elems = tuple(self.const(module, e, _depth + 1) for e in expr.args[0].elts)
+            return frozenset(elems) if expr.func.id in ("frozenset", "set") else elems
+        if isinstance(expr, ast.Set):
+            return frozenset(self.const(module, e, _depth + 1) for e in expr.elts)
         if isinstance(expr, (ast.Name, ast.Attribute)):
             r = self.resolve(module, expr)
             if r is None:
